@@ -46,14 +46,14 @@ def lean_stage(pid, mod, ctx):
             st["t1"] = mod.extract(ctx) or "regenerated"
         except Exception as e:  # source no longer has the expected shape
             st["t1"] = "extract-failed: %r" % (e,)
-    targets = ["BreezyVerif.Props.%s" % pid, "vdriver"]
+    targets = ["BreezyVerif.Props.%s" % pid, "vd_%s" % pid]
     ok, out, secs = lean.build(targets)
     st["build_ok"] = ok
     st["build_s"] = round(secs, 2)
     if not ok:
         st["log"] = out[-4000:]
         # the driver may still be buildable on its own (model intact)
-        ok2, out2, _ = lean.build(["vdriver"])
+        ok2, out2, _ = lean.build(["vd_%s" % pid])
         st["driver_ok"] = ok2
     else:
         st["driver_ok"] = True
@@ -94,7 +94,7 @@ def main():
         env.boot()
         wt = env.make_tree("2a")
         wt.commit("x")
-        print("env ok", lean.Driver().ask(["C18 tw 1 1 2"]))
+        print("env ok", lean.Driver("C18").ask(["tw 1 1 2"]))
         return 0
     pid = a.pid
     tier = a.tier if a.tier in ("quick", "thorough") else "quick"
